@@ -294,7 +294,11 @@ func randomDesign(r *vh.RNG, idx int) *builtDesign {
 		specs := []methodSpec{
 			{Name: "own", Own: genReqs(r, d, 1+r.Intn(3))},
 			{Name: "inherit"},
+			{Name: "inherit2"}, // siblings inheriting the same requirement, each with its own credential locations
 			{Name: "open", NoSec: true},
+		}
+		if r.Bool() {
+			specs = append(specs, methodSpec{Name: "inherit3"})
 		}
 		if r.Bool() {
 			specs = append(specs, methodSpec{Name: "own2", Own: genReqs(r, d, 1+r.Intn(3))})
@@ -381,6 +385,29 @@ func coveringDesigns() []*builtDesign {
 		add(methodSpec{Name: "explicit_authorization", Own: []dg.Requirement{one("key"), one("oa")},
 			Locs: map[string]string{attrAToken: "header:Authorization", attrKey: "header:Authorization"}})
 		d.Services = []*dg.Service{s}
+		out = append(out, bd)
+	}
+	// 3: siblings inheriting one service-level / API-level requirement, each mapping the
+	// credentials to different places (whichever endpoint goa finalizes last must not decide for the others)
+	{
+		d := &dg.Design{Name: "cover3", Schemes: []dg.Scheme{{Kind: "apikey", Name: "key"},
+			{Kind: "jwt", Name: "jwt", Scopes: []string{"api:read"}}, {Kind: "oauth2", Name: "oa", Scopes: []string{"o:x"}}}}
+		d.Security = []dg.Requirement{{Schemes: []string{"oa"}}, {Schemes: []string{"key"}}}
+		s := &dg.Service{Name: "svc", Security: []dg.Requirement{{Schemes: []string{"jwt"}, Scopes: []string{"api:read"}}, {Schemes: []string{"key"}}}}
+		s2 := &dg.Service{Name: "apilevel"}
+		bd := &builtDesign{D: d, Specs: map[string]methodSpec{}}
+		add := func(s *dg.Service, ms methodSpec) {
+			s.Methods = append(s.Methods, buildMethod(d, s, ms))
+			bd.Specs[s.Name+"/"+ms.Name] = ms
+		}
+		add(s, methodSpec{Name: "in_query", Locs: map[string]string{attrToken: "query:t", attrKey: "header:X-Key"}})
+		add(s, methodSpec{Name: "in_header", Required: true, Locs: map[string]string{attrKey: "query:k"}}) // token: implicit Authorization
+		add(s, methodSpec{Name: "in_body", Locs: map[string]string{attrToken: "body", attrKey: "header:X-Other"}})
+		add(s, methodSpec{Name: "in_xheader", Locs: map[string]string{attrToken: "header:X-Jwt", attrKey: "body"}})
+		add(s2, methodSpec{Name: "in_query", Required: true, Locs: map[string]string{attrAToken: "query:at", attrKey: "header:X-Key"}})
+		add(s2, methodSpec{Name: "in_header", Locs: map[string]string{attrKey: "query:k"}}) // atoken: implicit Authorization
+		add(s2, methodSpec{Name: "in_body", Locs: map[string]string{attrAToken: "body", attrKey: "query:kk"}})
+		d.Services = []*dg.Service{s, s2}
 		out = append(out, bd)
 	}
 	return out
